@@ -1,6 +1,7 @@
 import NutilsVerif.Proofs.C19WF
 import NutilsVerif.Proofs.C19ParsePrint
 import NutilsVerif.Proofs.C19Sem
+import NutilsVerif.Proofs.C19Balanced
 /-!
 # C19 — expression strings mean their index-notation reading: property theorems
 
@@ -139,6 +140,18 @@ and the shape has one length per index. -/
 theorem parse_ok_wf (Γ : Ctx) (l : List Char) (r : Res) (h : parse Γ l = .ok r) : r.WF :=
   parseExpr_wf Γ (l.length + 1) ⟨0, l⟩ r h
 
+/-- **parse_ok_balanced** (clause "unbalanced brackets ... rejected"), for *every* string: in a context whose variable
+and function names contain no bracket characters, every string the parser accepts has properly nested brackets
+(`( [ { <` against `) ] } >`, counted by level — that the kinds also match is checked scope by scope by `closerOf`). -/
+theorem parse_ok_balanced (Γ : Ctx) (hΓ : Γ.plainNames) (l : List Char) (r : Res) (h : parse Γ l = .ok r) : Bal l :=
+  parseExprB_bal Γ hΓ _ (fun _ _ h => by simp at h) (l.length + 1) ⟨0, l⟩ r h
+
+/-- **reject_unbalanced**: a string with unbalanced brackets is rejected -/
+theorem reject_unbalanced (Γ : Ctx) (hΓ : Γ.plainNames) (l : List Char) (h : ¬ Bal l) : ∃ e, parse Γ l = .error e := by
+  cases hp : parse Γ l with
+  | error e => exact ⟨e, rfl⟩
+  | ok r => exact absurd (parse_ok_balanced Γ hΓ l r hp) h
+
 /-- sums: a term whose index *set* differs from that of the first term is rejected (for all inputs of the
 alignment step) -/
 theorem reject_sum_index_mismatch (sF sT : Sub) (indices : List Char) (iterm : Nat) (r : Res) (c : Char)
@@ -216,6 +229,11 @@ theorem reject_iff_elab_none (Γ : Ctx) (t : Src) (h : t.ok .expr = true) :
 /-- `-A_ij b_j + 2 (a_i)` is a well-formed tree of the core grammar -/
 example : (Src.sum true (.prod (.var ['A'] ['i', 'j']) (.pcons (.var ['b'] ['j']) .pnil))
     (.tcons false (.prod (.num [2]) (.pcons (.paren (.sum false (.prod (.var ['a'] ['i']) .pnil) .tnil)) .pnil)) .tnil)).ok .expr = true := by decide
+
+/-- `(a_i` is not balanced; a context with plain names exists -/
+example : ¬ Bal ['(', 'a', '_', 'i'] := by unfold Bal; decide
+example : (⟨[(['a'], [2])], [(['f'], [])]⟩ : Ctx).plainNames := by
+  constructor <;> intro p hp <;> simp at hp <;> subst hp <;> decide
 
 example : ∃ r : Res, r.WF := ⟨⟨.int 1, [], [], []⟩, wf_scalar _⟩
 
